@@ -17,6 +17,7 @@ type screen interface {
 	TopMargin() int
 	BottomMargin() int
 	SetFrontend(f Frontend)
+	setKeepsScrollback(keeps bool)
 
 	Line(y int) string
 	StyledLine(x, w, y int) Line
@@ -60,6 +61,10 @@ type spanScreen struct {
 	topMargin, bottomMargin int
 
 	autoWrap bool
+
+	// keepsScrollback is set on the main buffer: rows leaving it through the
+	// top are announced with Frontend.ScrollLines before they are dropped.
+	keepsScrollback bool
 
 	textMode TextReadMode
 
@@ -118,6 +123,10 @@ func (s *spanScreen) BottomMargin() int {
 
 func (s *spanScreen) SetFrontend(f Frontend) {
 	s.frontend = f
+}
+
+func (s *spanScreen) setKeepsScrollback(keeps bool) {
+	s.keepsScrollback = keeps
 }
 
 func (s *spanScreen) Line(y int) string {
@@ -520,6 +529,10 @@ func (s *spanScreen) scroll(y1 int, y2 int, dy int) {
 		debugPrintln(debugScroll, "scroll changed region:", Region{Y: y1, Y2: y1 + dy, X: 0, X2: s.size.X})
 		s.frontend.RegionChanged(Region{Y: y1, Y2: y1 + dy, X: 0, X2: s.size.X}, CRScroll)
 	} else {
+		if dy < 0 && y1 == 0 && s.keepsScrollback {
+			// the first -dy rows are about to leave the screen through the top
+			s.frontend.ScrollLines(-dy)
+		}
 		for y := y1; y <= y2+dy; y++ {
 			s.lines[y] = s.lines[y-dy]
 		}
